@@ -165,6 +165,14 @@ def commands(r, base, blks, nil=False):
             n = r.choice([0, 1, 1, 2, 3, max(rows - 1, 0), rows, rows + 1, r.randint(0, rows + 2), 2 ** 63 - 1, 2 ** 63 - 2,
                           2 ** 63, 10 ** 30])
             out.append("%s %d" % (name, n))
+    if blks and r.random() < 0.2:
+        # the memory changes while the view exists: overwrite bytes that are already stored (the rows stay, the
+        # values shown must be the current ones) between two prints of the same rows
+        o, ln = r.choice(blks)
+        w = r.randint(1, min(ln, 8))
+        p = r.randint(o, o + ln - w)
+        n = r.choice([8, 13, 21, 40])
+        out += ["print %d" % n, "st " + fmt_store(base + p, w, content(r, w)), "print %d" % n]
     if r.random() < 0.6:
         out.append("print %d" % r.choice([5, 8, 13, 21, 40]))
     return out
